@@ -77,7 +77,13 @@ func (d *filesDir) ReadDir(n int) ([]fs.DirEntry, error) {
 	d.n += len(names)
 	entries := make([]fs.DirEntry, len(names))
 	for i, name := range names {
-		entries[i] = &filesDirEntry{filesFileInfo{name: name}}
+		info := filesFileInfo{name: name}
+		if data, ok := d.fsys[name]; ok {
+			info.data = data
+		} else {
+			info.mode = fs.ModeDir
+		}
+		entries[i] = &filesDirEntry{info}
 	}
 	return entries, nil
 }
